@@ -307,13 +307,26 @@ def doc_fields(fmt: str, p: List[str]) -> str:
     return 'Summary word %s word.\n\nMore %s text. %s %s %s %s %s\n' % tuple(p[:7])
 
 
+def doctest_block(fmt: str, payload: str) -> str:
+    """a doctest block whose comment carries the payload (one comment token whatever it holds)"""
+    if fmt == 'plaintext':
+        return ''
+    return '\n\n>>> value = 1 # note %s\n>>> value\n1\n' % payload
+
+
 def project(fmt: str, pl: Dict[str, Any]) -> Dict[str, Any]:
     """pl: site -> payload string.  Sites: modname, doc0..doc6 (docstring words), const, default, default2, annot,
     annot_str, deco, deco_kw, base_arg, attr_doc, depr (None = no deprecated site), dict_key, bytes."""
     r = repr
-    doc = doc_fields(fmt, [pl['doc%d' % i] for i in range(7)])
+    doc = doc_fields(fmt, [pl['doc%d' % i] for i in range(7)]) + doctest_block(fmt, pl['doc0'])
+    title = 'Section %s' % pl['doc1'].replace('\n', ' ')
+    section = ''
+    if fmt == 'restructuredtext':
+        section = '\n\n%s\n%s\n\nText in the section %s.\n' % (title, '=' * max(4, len(title)), pl['doc2'])
+    elif fmt == 'epytext':
+        section = '\n\n%s\n%s\n  Text in the section %s.\n' % (title, '=' * len(title), pl['doc2'])
     init = [
-        r('Package summary %s here.\n\nBody %s.' % (pl['doc0'], pl['doc1'])),
+        r('Package summary %s here.\n\nBody %s.' % (pl['doc0'], pl['doc1']) + section),
         'from typing import Literal, List',
         'from twisted.python.deprecate import deprecated',
         'from incremental import Version',
@@ -435,13 +448,13 @@ class Check(PropertyCheck):
                  'for every stan tree whose tag/attribute names are XML names the reader reads flatten(s) back as the tree, '
                  'adjacent text merged: well-formed, balanced, elements/attributes/text exactly those of the tree whatever '
                  'characters texts and attribute values hold (C10_flatten_reads_back, C10_no_markup_from_text); html2stan(encode t) '
-                 'is one text node (C10_html2stan_roundtrip); docutils start tags read back (C10_starttag_safe); '
+                 'is one text node except for FORM FEED / NO-BREAK SPACE (C10_html2stan_roundtrip_partial/_refuted); docutils encode/attval are inverted and start tags read back (C10_docutils_escape, C10_starttag_safe_partial); '
                  'validate_identifier accepts only dotted identifiers (C10_identifier_guard); which non-XML characters survive '
-                 '(C10_ctrl_chars_partial). Tied to /repo by regenerated escape tables and byte-for-byte correspondence; whole-run '
+                 '(C10_ctrl_chars_partial); the reST generated for @deprecated stays one line only under a guard (C10_deprecate_one_line_partial/_refuted). Tied to /repo by regenerated escape tables and byte-for-byte correspondence; whole-run '
                  'stream parses every page of tiny adversarial projects in every docformat.'),
         'note': ('Trusted: Coq kernel, extraction + OCaml driver, Python harness, expat as reference parser. Modelled not verified: '
                  'twisted template engine, docutils parser and writer visit methods, page templates (sampled by the whole-run stream). '
-                 'Known finding: deprecate replacement text leaves its reST literal (line separators other than \\n, backquotes).'),
+                 'Known findings: @deprecated replacement text leaves its reST literal (line separators other than \\n, back-quotes, edge white space) and becomes markup; FORM FEED and NO-BREAK SPACE make the re-parse path fail (rendering dropped, pages stay well-formed).'),
         'technique': 'Coq proof (XML reader inverts the escapers; induction on stan trees) + regenerated tables + exhaustive/random correspondence + whole-run differential oracle',
     }
     assumptions = ['tag and attribute names of stan trees are ASCII XML names without colon (they come from templates and code, not from source text)',
@@ -760,6 +773,16 @@ class Check(PropertyCheck):
                 self.count('node2stan_%s' % o[0])
         if not oracle_only:
             out += self.validate_xml_spec()
+            if self.tier == 'thorough':
+                # second evaluation path: the same model evaluated by the kernel's VM inside coqc (cross-checks extraction)
+                idx = list(range(0, len(minputs), max(1, len(minputs) // 300)))[:300]
+                sample = [minputs[k] for k in idx]
+                vm = lib.run_model_vm('Model.StanRun', sample)
+                bad = [k for k, a, b in zip(idx, vm, [mres[k] for k in idx]) if dec(a) != dec(b)]
+                self.stats['vm_compute_crosscheck'] = len(sample)
+                if bad:
+                    out.append(Violation('correspondence', 'extracted OCaml model and vm_compute disagree on input %s' % minputs[bad[0]][:200],
+                                         case=None, found_input=False))
         for c in cases[5:8] + cases[-3:]:
             self.sample(c)
         return out
